@@ -4,20 +4,23 @@ import core, gen, gen_units as G, canon
 from core import hx, unhx
 
 LEAN_MODULE = 'QM.Props.C07'
-THEOREMS = ['Cv.C07_start_passthrough', 'Cv.C07_unit_defaults_first', 'Cv.C07_oneshot_keeps_user_choice', 'Cv.C07_killmode_kept',
+THEOREMS = ['Cv.C07_container_sections', 'Cv.C07_pod_sections', 'Cv.C07_volume_sections', 'Cv.C07_network_sections', 'Cv.C07_kube_sections', 'Cv.C07_build_sections',
+            'Cv.frame_fromContainer', 'Cv.frame_fromPod', 'Cv.frame_fromVolume', 'Cv.frame_fromNetwork', 'Cv.frame_fromKube', 'Cv.frame_fromBuild', 'Cv.sections_of_frame',
+            'Cv.C07_start_passthrough', 'Cv.C07_unit_defaults_first', 'Cv.C07_oneshot_keeps_user_choice', 'Cv.C07_killmode_kept',
             'Cv.C07_image_passthrough', 'Cv.C07_image_xsection']
 ASSUMPTIONS = [
     'MM.SUnit models the ordered multimap; merge_from / rename_section / prepend / set / add are modelled operation by operation and tied by the unit-script correspondence',
-    'the whole-converter statements (passthrough of every foreign section, X-section) are proved for .image from the converter model; for the other six converters they are checked on real conversions of generated units by an independent oracle (and the shared helpers they are built from are proved)',
+    'the statement about sections (every foreign section verbatim and in order; own section and [Quadlet] kept as X-…; neither remains) is proved for all seven converter models; what happens *inside* [Unit] and [Service] (user values kept per key, only NotifyAccess replaceable, managed settings) is proved for the shared helpers (default dependencies first, one-shot settings, KillMode) and otherwise checked on real conversions by the oracle',
     '[Service] Type of a non-oneshot container is re-set by the generator to the same value (its spelling is normalised); the oracle compares unquoted values there',
 ]
-LEVEL_TEXT = ('Proof (shared helpers, .image) + oracle (all converters): Lean theorems over the multimap model — the unit every converter starts from '
-              'copies every section other than [Unit] verbatim and in order (C07_start_passthrough, for every unit), the default dependencies are '
-              'prepended so the user\'s [Unit] entries keep the last word, the one-shot settings and KillMode=mixed|control-group are never overwritten '
-              'when the user set them, and for .image the full statement (all foreign sections verbatim; [Image]/[Quadlet] kept as X-Image/X-Quadlet after '
-              'existing entries of those names; no Image/Quadlet section left) is derived from the converter model. For the other converters an '
-              'independent oracle checks, on the real converter, per (section, key) the subsequence of user values, the X-section, the managed '
-              'settings and the position of the default dependencies.')
+LEVEL_TEXT = ('Proof (sections: all seven converters) + oracle (inside [Unit]/[Service]): Lean theorems C07_<type>_sections — for every unit and every '
+              'successful conversion by the model of each converter, every section other than the unit\'s own, [Quadlet], their X- counterparts, [Unit] and '
+              '[Service] has exactly the user\'s entries in order, the own section is kept verbatim under X-<name> after whatever the user already had '
+              'there (likewise [Quadlet]), and no section of the old names remains. Proved by a frame calculus: every handler (image / storage / volume / '
+              'network / mount / pod references, KillMode, Type/Notify, working directory, Exec lines, one-shot settings), including the monadic folds, '
+              'writes only to [Unit] or [Service]. Also proved: default dependencies are prepended, one-shot settings and KillMode=mixed|control-group '
+              'are kept when the user set them. The per-key claims inside [Unit]/[Service] are checked on the real converters with user values — '
+              'including empty assignments — for every key the converters themselves read or write.')
 LEVEL_NOTE = 'Trusted: Lean kernel; correspondence of the multimap and converter models; the Python statement of the pass-through rule used by the oracle.'
 TECHNIQUE = 'Lean 4 proofs over the multimap algebra (merge/rename/prepend/set) and the .image converter + pass-through oracle on the real converters'
 
